@@ -65,6 +65,15 @@ def main(rep, tier, only):
         rc, rs = count_of(ur, rd, "read")
         wc, ws = count_of(uw, wr, "write")
 
+        def read_buffer(u, fn):
+            """the local whose storage is handed to stream.read"""
+            for (n, d, q) in L.calls_in(u, fn.get("body")):
+                if q.endswith("::read") and q.startswith("std::") and n.get("args"):
+                    for m in F.walk(n["args"][0]):
+                        if m.get("k") == "ref" and m.get("dk") == "local":
+                            return m.get("name")
+            return None
+
         def conv_of(u, fn):
             for (n, d, q) in L.calls_in(u, fn.get("body")):
                 if q == "fcppt::endianness::convert":
@@ -76,11 +85,11 @@ def main(rep, tier, only):
             why = "byte counts differ: read uses sizeof(%s), write uses sizeof(%s), value type %s" % (rc, wc, ty)
         elif rcv is None or wcv is None:
             why = "one side does not apply endianness::convert (read: %s, write: %s)" % (rcv, wcv)
-        elif rcv[1] != "_format" or wcv[1] != "_format":
+        elif rcv[1] != "r_a1" or wcv[1] != "r_a2":      # read(stream, format) / write(stream, value, format)
             why = "convert is not given the caller's format (read: %s, write: %s)" % (rcv, wcv)
-        elif rcv[0] != "result" or wcv[0] != "_value":
+        elif not read_buffer(ur, rd) or rcv[0] != read_buffer(ur, rd) or wcv[0] != "r_a1":
             why = "convert is applied to %s / %s instead of the read result / the written value" % (rcv[0], wcv[0])
-        elif rs != "_stream" or ws != "_stream":
+        elif rs != "r_a0" or ws != "r_a0":
             why = "not the caller's stream"
         key = "io::read/write<%s>" % ty
         (rep.fail if why else rep.ok)("RW-SIB", key, F.primary_site(rd), F.describe(rd), **({"why": why} if why else {"how": "sizeof(%s);convert(.,_format)" % ty}))
@@ -95,7 +104,8 @@ def main(rep, tier, only):
             ct = T.show(T.norm(u, c["c_"]))
             tt = T.show(T.norm(u, c["then"]))
             et = T.show(T.norm(u, c["else"]))
-            ok = "_stream.read(" in ct and "convert(result, _format)" in tt and "{}" in et.replace("fcppt::optional::object", "")
+            buf = next((m.get("name") for m in F.walk(c["c_"]) if m.get("k") == "ref" and m.get("dk") == "local"), "?")
+            ok = "r_a0.read(" in ct and ("convert(%s, r_a1)" % buf) in tt and "{}" in et.replace("fcppt::optional::object", "")
         (rep.ok if ok else rep.fail)("RW-SIB", "io::read|failure", F.primary_site(fn), F.describe(fn), **({"how": "stream failure => nothing"} if ok else {"why": "read does not return nothing exactly when the stream read fails"}))
     # ---------------- CONV
     fn = first(db, "fcppt::endianness::convert")
@@ -105,8 +115,8 @@ def main(rep, tier, only):
         u = fn["_unit"]
         rets = [r for r in F.walk(fn.get("body")) if r.get("k") == "return"]
         t = T.norm(u, rets[0]["e"]) if rets else None
-        ok = isinstance(t, tuple) and t[0] == "cond" and T.show(t[1]).replace(" ", "") in ("(_format==std::endian::native)", "(std::endian::native==_format)") \
-            and T.show(t[2]) == "_value" and T.show(t[3]) == "swap(_value)"
+        ok = isinstance(t, tuple) and t[0] == "cond" and T.show(t[1]).replace(" ", "") in ("(r_a1==std::endian::native)", "(std::endian::native==r_a1)") \
+            and T.show(t[2]) == "r_a0" and T.show(t[3]) == "swap(r_a0)"
         (rep.ok if ok else rep.fail)("CONV", "endianness::convert", F.primary_site(fn), F.describe(fn), **({"how": "native ? id : swap"} if ok else {"why": "convert is %s" % (T.show(t) if t else "?")}))
     fn = first(db, "fcppt::endianness::swap")
     if fn is not None:
@@ -120,7 +130,7 @@ def main(rep, tier, only):
             sz = [m for m in F.walk(n["args"][1]) if m.get("k") == "sizeof"]
             ty = (fn.get("targs") or ["?"])[0]
             rets = [T.show(T.norm(u, r["e"])) for r in F.walk(fn.get("body")) if r.get("k") == "return"]
-            ok = "_value" in a0 and sz and u.ty(sz[0].get("arg_t")) == ty and rets == ["_value"] and fn["params"][0]["ref"] == "val"
+            ok = "r_a0" in a0 and sz and u.ty(sz[0].get("arg_t")) == ty and rets == ["r_a0"] and fn["params"][0]["ref"] == "val"
             why = "swap reverses %s with length sizeof(%s) and returns %s" % (a0, u.ty(sz[0].get("arg_t")) if sz else "?", rets)
         (rep.ok if ok else rep.fail)("CONV", "endianness::swap", F.primary_site(fn), F.describe(fn), **({"how": "reverse_mem(&copy, sizeof(Type))"} if ok else {"why": why}))
     fn = first(db, "fcppt::endianness::reverse_mem")
@@ -136,7 +146,8 @@ def main(rep, tier, only):
             sw = [n for (n, d, q) in L.calls_in(u, loops[0]["body"]) if q == "std::swap"]
             if sw:
                 a = [T.show(T.norm(u, x)).replace(" ", "") for x in sw[0]["args"]]
-                ok = "(_len/2)" in rng.replace(" ", "") and a[0] == "(_data[]index)" and a[1] in ("(_data[]((_len-index)-1))", "(_data[](_len-index-1))")
+                iv = (loops[0].get("var") or {}).get("name", "?")
+                ok = "(r_a1/2)" in rng.replace(" ", "") and a[0] == "(r_a0[]%s)" % iv and a[1] in ("(r_a0[]((r_a1-%s)-1))" % iv, "(r_a0[](r_a1-%s-1))" % iv)
                 why = "range %s, swap(%s, %s)" % (rng, a[0], a[1])
         (rep.ok if ok else rep.fail)("CONV", "endianness::reverse_mem", F.primary_site(fn), F.describe(fn), **({"how": "swap(data[i], data[len-1-i]) for i < len/2"} if ok else {"why": why}))
     # ---------------- CVT
@@ -168,6 +179,7 @@ def main(rep, tier, only):
             elif cur is not None:
                 arms[cur].append(c)
         why = None
+        BUF = next((v.get("name") for v in F.walk(fn.get("body"), into_lambdas=False) if v.get("k") == "var" and "buffer::object" in (u.ty(v.get("t")) or "")), "buf")
 
         def returns(items):
             out = []
@@ -181,20 +193,20 @@ def main(rep, tier, only):
             why = "switch arms are %s, expected %s" % (sorted(arms), sorted(need))
         else:
             rp = returns(arms["partial"])
-            if any("buf" in r or "_string" in r for r in rp):
+            if any(BUF in r or "r_a0" in r for r in rp):
                 why = "the `partial` arm returns a converted string (%s): input that was not converted completely is reported as success" % rp
             grows = any(q.endswith("::resize_write_area") for it in arms["partial"] for (_, _, q) in L.calls_in(u, it))
             cont = any(n.get("k") == "continue" for it in arms["partial"] for n in F.walk(it))
             if not why and not (grows and cont):
                 why = "the `partial` arm does not grow the output area and continue"
             re_ = returns(arms["error"])
-            if not why and any("buf" in r or "_string" in r for r in re_):
+            if not why and any(BUF in r or "r_a0" in r for r in re_):
                 why = "the `error` arm returns a string"
             rn = returns(arms["noconv"])
-            if not why and not any("_string" in r for r in rn):
+            if not why and not any("r_a0" in r for r in rn):
                 why = "the `noconv` arm does not return the input"
             ro = returns(arms["ok"])
-            if not why and not any("buf" in r for r in ro):
+            if not why and not any(BUF in r for r in ro):
                 why = "the `ok` arm does not return the converted buffer"
             if not why:
                 # libstdc++ keeps an incomplete trailing multi-byte sequence in the conversion state and reports `ok`:
@@ -211,7 +223,7 @@ def main(rep, tier, only):
                             continue
                         pos = ("!= 0" in ct or "!=0" in ct.replace(" ", "")) and not ct.strip().startswith("!")
                         neg = "== 0" in ct or ct.strip().startswith("!")
-                        if (pos and "buf" in tt and "buf" not in et) or (neg and "buf" in et and "buf" not in tt):
+                        if (pos and BUF in tt and BUF not in et) or (neg and BUF in et and BUF not in tt):
                             guarded = m.group(1)
                 for it in arms["ok"]:
                     for st in F.walk(it, into_lambdas=False):
@@ -234,7 +246,7 @@ def main(rep, tier, only):
             continue
         seen.add(F.primary_site(fn))
         rets = [T.show(T.norm(u, r["e"])) for r in F.walk(fn.get("body")) if r.get("k") == "return"]
-        ok = rets and rets[0].replace(" ", "") == "index_of_array(names(),_string)"
+        ok = rets and rets[0].replace(" ", "") == "index_of_array(names(),r_a0)"
         (rep.ok if ok else rep.fail)("ENUM", "from_string_impl::get", F.primary_site(fn), F.describe(fn)[:140], **({"how": "index_of_array(names<Enum>(), string)"} if ok else {"why": "from_string is %s" % rets}))
     seen = set()
     for fn in db.fns("fcppt::enum_::names"):
@@ -294,9 +306,11 @@ def main(rep, tier, only):
         t = T.norm(u, rets[0]["e"]) if rets else None
         elset = T.show(t[3]) if isinstance(t, tuple) and t[0] == "cond" else ""
         # the else branch is optional::nothing{} converted to the result type (no value involved)
-        ok = isinstance(t, tuple) and t[0] == "cond" and T.show(t[1]) == "iss.eof()" and "result" in T.show(t[2]) and "result" not in elset
+        iss = next((T.show(T.norm(u, n.get("recv"))) for (n, d, q) in L.calls_in(u, fn.get("body")) if q.endswith("::imbue") and n.get("recv") is not None), "?")
+        res = [m.get("name") for m in F.walk(rets[0]["e"]) if m.get("k") == "ref" and m.get("dk") == "local" and m.get("name") != iss] if rets else []
+        ok = isinstance(t, tuple) and t[0] == "cond" and T.show(t[1]) == iss + ".eof()" and len(set(res)) == 1 and res[0] in T.show(t[2]) and res[0] not in elset
         imb = [T.show(T.norm(u, n["args"][0])) for (n, d, q) in L.calls_in(u, fn.get("body")) if q.endswith("::imbue")]
-        ok = ok and imb == ["_locale"]
+        ok = ok and imb == ["r_a1"]
         (rep.ok if ok else rep.fail)("EXTR", "extract_from_string_locale", F.primary_site(fn), F.describe(fn)[:140],
                                      **({"how": "iss.eof() ? result : nothing; imbue(_locale)"} if ok else {"why": "returns %s, imbues %s" % (T.show(t) if t else "?", imb)}))
     seen = set()
@@ -306,7 +320,7 @@ def main(rep, tier, only):
             continue
         seen.add(F.primary_site(fn))
         imb = [T.show(T.norm(u, n["args"][0])) for (n, d, q) in L.calls_in(u, fn.get("body")) if q.endswith("::imbue")]
-        ok = imb == ["_locale"]
+        ok = imb == ["r_a1"]
         (rep.ok if ok else rep.fail)("EXTR", "output_to_string_locale", F.primary_site(fn), F.describe(fn)[:140], **({"how": "imbue(_locale)"} if ok else {"why": "imbues %s" % imb}))
     rep.explanation = ("Sibling-agreement and table rules between the writers and readers of each encoding: same byte count and byte-order "
                        "conversion, same token sequence, same name table, never success on a partial conversion. Necessary conditions of "
